@@ -228,8 +228,14 @@ PrivFailures(S, T, e, out) ==
          /\ x = a
          /\ \E c \in S.cfg.opers :
                \/ (e.cmd = "OPER" /\ Len(e.p) >= 2 /\ e.p[1] = c[1] /\ e.p[2] = c[2])
-               \/ s.pass = "oper=" \o c[1] \o " " \o c[2]
-               \/ (e.cmd = "PASS" /\ JoinStr(e.p, " ") = "oper=" \o c[1] \o " " \o c[2]))
+               (* or the password in force at the login carries the pair in its oper= part (a PASS may have *)
+               (* several parts between colons; the server takes them apart with extractPassword)          *)
+               \/ LET raw == JoinStr(e.p, " ")
+                      now == IF e.cmd = "PASS" /\ Len(e.p) > 0
+                             THEN (IF \E t \in PassTags : HasPrefix(raw, t) THEN raw ELSE "nickserv=" \o raw)
+                             ELSE s.pass
+                      op == Split(ExtractTag(now, "oper"), " ")
+                  IN Len(op) > 1 /\ op[1] = c[1] /\ op[2] = c[2])
     \cup F("ServerNeedsServicesPassword",
       \A x \in Live(S) \cap Live(T) : (T.ss[x].sv /\ ~S.ss[x].sv) =>
          (x = a /\ e.cmd = "SERVER" /\ \E pw \in S.cfg.svc : s.pass = "services=" \o pw))
